@@ -1,4 +1,4 @@
-(* Non-vacuity witnesses and the refuted clauses of C04 (concrete files, decided by vm_compute). *)
+(* Non-vacuity witnesses of C04: concrete files, windows and refused arguments (decided by vm_compute). *)
 From Coq Require Import ZArith NArith List Lia ZifyBool ZifyN ZifyNat Bool.
 Require Import ListN Result Bytes Utf8 Utf8S F32 Prog Codec PoseRead PoseReadLemmas WindowLemmas
   C04_Legacy C04_Spec C04_SpecRT C04_V01 C04_V00 C04_Rewrite C04_Unknown.
@@ -45,22 +45,57 @@ Lemma ex00_decodes :
   b_mask (p_body (first_person_view ex00)) = [false; true; false; true; true; true; false; false; false].
 Proof. split; [vm_compute; reflexivity|]. repeat split. Qed.
 
-(* the window arguments are ignored by the v0.0 decoder: frames [1,2) requested, all three returned *)
+(* a frame window: frames [1,2) of the three - the frame without people: zeros, every point missing.  (Until the decoder
+   took window arguments this was the witness of C04_v00_window_refuted: all three frames came back.) *)
 Definition ex_win : rargs := {| a_sf := Some 1%Z; a_st := None; a_ef := Some 2%Z; a_et := None |}.
-Definition v00_window_view (c : content00) (s0 e0 : Z) : pose :=
-  {| p_header := k0_header c; p_body := window_body (p_body (first_person_view c)) s0 e0 |}.
-Lemma v00_window_refuted : exists c a,
-  wf00 c /\ k0_frames c <> [] /\ a_sf a = Some 1%Z /\ a_ef a = Some 2%Z /\ lenN (k0_frames c) = 3 /\
-  fst (read_bytes c04_legacy None (spec00 c) a) <> Ok (v00_window_view c 1 2) /\
-  fst (fst (read_stream4 c04_legacy None (spec00 c) a)) <> Ok (v00_window_view c 1 2).
+(* the same window in milliseconds at 30 fps: floor (34 / 1000 * 30) = 1, ceil (66 / 1000 * 30) = 2 *)
+Definition ex_time00 : rargs := {| a_sf := None; a_st := Some 34%Z; a_ef := None; a_et := Some 66%Z |}.
+(* frames [2, 3): start by frame, end by time: ceil (100 / 1000 * 30) = 3 *)
+Definition ex_mixed00 : rargs := {| a_sf := Some 2%Z; a_st := None; a_ef := None; a_et := Some 100%Z |}.
+Lemma ex00_window :
+  window00 ex00 ex_win = Ok (1, 2)%Z /\ window00 ex00 ex_time00 = Ok (1, 2)%Z /\ window00 ex00 ex_mixed00 = Ok (2, 3)%Z /\
+  time_to_frame true 100 (fps_value (k0_fps ex00)) = Ok 3%Z /\
+  valid_window (frames00 ex00) 1 2 /\ valid_window (frames00 ex00) 2 3 /\
+  fst (read_bytes c04_legacy None (spec00 ex00) ex_win) = Ok (v00_window_view ex00 1 2) /\
+  fst (fst (read_stream4 c04_legacy None (spec00 ex00) ex_win)) = Ok (v00_window_view ex00 1 2) /\
+  fst (read_bytes c04_legacy None (spec00 ex00) ex_time00) = Ok (v00_window_view ex00 1 2) /\
+  fst (fst (read_stream4 c04_legacy None (spec00 ex00) ex_time00)) = Ok (v00_window_view ex00 1 2) /\
+  fst (fst (read_stream4 c04_legacy None (spec00 ex00) ex_mixed00)) = Ok (v00_window_view ex00 2 3) /\
+  b_shape (p_body (v00_window_view ex00 1 2)) = [1; 1; 3; 2] /\
+  b_data (p_body (v00_window_view ex00 1 2)) = [0; 0; 0; 0; 0; 0] /\
+  b_mask (p_body (v00_window_view ex00 1 2)) = [true; true; true] /\
+  b_data (p_body (v00_window_view ex00 2 3)) = [f2; f1; fh; fh; f1; f1] /\
+  b_conf (p_body (v00_window_view ex00 2 3)) = [fnan; fh; f1].
 Proof.
-  exists ex00, ex_win. destruct ex00_wf as [Hw Hne]. split; [exact Hw|]. split; [exact Hne|].
-  split; [reflexivity|]. split; [reflexivity|]. split; [reflexivity|].
-  pose proof (v00_read_bytes ex00 None ex_win [] Hw I) as Hb.
-  pose proof (v00_read_stream ex00 None ex_win [] Hw I) as Hs. rewrite app_nil_r in Hb, Hs.
-  rewrite Hb, Hs. split; intros H; apply (f_equal (fun r => match r with Ok p => b_shape (p_body p) | Err _ => [] end)) in H;
-    vm_compute in H; discriminate.
+  destruct ex00_wf as [Hw _].
+  assert (W1 : window00 ex00 ex_win = Ok (1, 2)%Z) by (vm_compute; reflexivity).
+  assert (W2 : window00 ex00 ex_time00 = Ok (1, 2)%Z) by (vm_compute; reflexivity).
+  assert (W3 : window00 ex00 ex_mixed00 = Ok (2, 3)%Z) by (vm_compute; reflexivity).
+  assert (V1 : valid_window (frames00 ex00) 1 2) by (split; [right|]; vm_compute; [reflexivity|discriminate]).
+  assert (V2 : valid_window (frames00 ex00) 2 3) by (split; [right|]; vm_compute; [reflexivity|discriminate]).
+  pose proof (v00_read_bytes_window ex00 None ex_win [] 1 2 Hw I W1 V1) as B1.
+  pose proof (v00_read_stream_window ex00 None ex_win [] 1 2 Hw I W1 V1) as S1.
+  pose proof (v00_read_bytes_window ex00 None ex_time00 [] 1 2 Hw I W2 V1) as B2.
+  pose proof (v00_read_stream_window ex00 None ex_time00 [] 1 2 Hw I W2 V1) as S2.
+  pose proof (v00_read_stream_window ex00 None ex_mixed00 [] 2 3 Hw I W3 V2) as S3.
+  rewrite app_nil_r in B1, S1, B2, S2, S3.
+  conjs; try assumption; vm_compute; reflexivity.
 Qed.
+(* refused: a start at the frame count (by frame, and by time: floor (100 / 1000 * 30) = 3), a frame and a time bound for
+   the same end *)
+Definition ex_beyond00 : rargs := {| a_sf := Some 3%Z; a_st := None; a_ef := None; a_et := None |}.
+Definition ex_beyond_time00 : rargs := {| a_sf := None; a_st := Some 100%Z; a_ef := Some 7%Z; a_et := None |}.
+Definition ex_conflict : rargs := {| a_sf := Some 1%Z; a_st := Some 34%Z; a_ef := None; a_et := None |}.
+Definition ex_conflict_end : rargs := {| a_sf := None; a_st := None; a_ef := Some 2%Z; a_et := Some 66%Z |}.
+Lemma ex00_rejected :
+  window00 ex00 ex_beyond00 = Ok (3, 3)%Z /\ window00 ex00 ex_beyond_time00 = Ok (3, 3)%Z /\ frames00 ex00 = 3%Z /\
+  fst (read_bytes c04_legacy None (spec00 ex00) ex_beyond00) = Err Value /\
+  fst (fst (read_stream4 c04_legacy None (spec00 ex00) ex_beyond_time00)) = Err Value /\
+  conflict (a_sf ex_conflict) (a_st ex_conflict) || conflict (a_ef ex_conflict) (a_et ex_conflict) = true /\
+  conflict (a_sf ex_conflict_end) (a_st ex_conflict_end) || conflict (a_ef ex_conflict_end) (a_et ex_conflict_end) = true /\
+  fst (read_bytes c04_legacy None (spec00 ex00) ex_conflict) = Err Value /\
+  fst (fst (read_stream4 c04_legacy None (spec00 ex00) ex_conflict_end)) = Err Value.
+Proof. conjs; vm_compute; reflexivity. Qed.
 (* a file that declares zero frames decodes to the empty pose *)
 Definition ex00_empty : content00 := {| k0_header := hdr 0; k0_fps := 30; k0_frames := [] |}.
 Lemma ex00_empty_wf : wf00 ex00_empty /\ k0_frames ex00_empty = [].
@@ -90,12 +125,14 @@ Proof.
   all: vm_compute; discriminate.
 Qed.
 Definition ex_win01 : rargs := {| a_sf := Some 1%Z; a_st := None; a_ef := Some 2%Z; a_et := None |}.
-Lemma ex01_window : valid_window01 ex01 ex_win01 /\ valid_window01 ex01 no_args /\
-  b_shape (p_body (v01_expected ex01 ex_win01)) = [1; 1; 3; 2] /\
-  b_data (p_body (v01_expected ex01 ex_win01)) = [fh; fh; fh; fh; fh; fh] /\
-  b_shape (p_body (v01_expected ex01 no_args)) = [3; 1; 3; 2].
+Lemma ex01_window :
+  window01 ex01 ex_win01 = Ok (1, 2)%Z /\ valid_window (frames01 ex01) 1 2 /\
+  window01 ex01 no_args = Ok (0, 3)%Z /\ valid_window (frames01 ex01) 0 3 /\
+  b_shape (p_body (v01_view ex01 1 2)) = [1; 1; 3; 2] /\
+  b_data (p_body (v01_view ex01 1 2)) = [fh; fh; fh; fh; fh; fh] /\
+  b_shape (p_body (v01_view ex01 0 3)) = [3; 1; 3; 2].
 Proof.
-  unfold valid_window01. conjs; try (vm_compute; reflexivity).
+  unfold valid_window. conjs; try (vm_compute; reflexivity).
   - right. vm_compute. reflexivity.
   - vm_compute. discriminate.
   - left. reflexivity.
@@ -122,21 +159,34 @@ Proof.
   split; apply Forall_repeat; (split; [vm_compute; reflexivity|repeat constructor; vm_compute; reflexivity]).
 Qed.
 
-(* time bounds are swallowed by the v0.1 decoder: [40 ms, 80 ms) at 25 fps is frame [1,2), all three are returned *)
+(* a time window: [40 ms, 80 ms) at 25 fps is frames [1,2).  (Until the decoder took time bounds this was the witness of
+   C04_v01_time_window_refuted: all three frames came back.) *)
 Definition ex_time01 : rargs := {| a_sf := None; a_st := Some 40%Z; a_ef := None; a_et := Some 80%Z |}.
-Lemma v01_time_window_refuted : exists c a,
-  wf01 c /\ a_sf a = None /\ a_ef a = None /\
-  time_to_frame false 40 (fps_value (k1_fps c)) = Ok 1%Z /\ a_st a = Some 40%Z /\
-  time_to_frame true 80 (fps_value (k1_fps c)) = Ok 2%Z /\ a_et a = Some 80%Z /\
-  fst (read_bytes c04_legacy None (spec01 c) a) <> Ok (v01_view c 1 2) /\
-  fst (fst (read_stream4 c04_legacy None (spec01 c) a)) <> Ok (v01_view c 1 2).
+Lemma ex01_time_window :
+  time_to_frame false 40 (fps_value (k1_fps ex01)) = Ok 1%Z /\ time_to_frame true 80 (fps_value (k1_fps ex01)) = Ok 2%Z /\
+  window01 ex01 ex_time01 = Ok (1, 2)%Z /\
+  fst (read_bytes c04_legacy None (spec01 ex01) ex_time01) = Ok (v01_view ex01 1 2) /\
+  fst (fst (read_stream4 c04_legacy None (spec01 ex01) ex_time01)) = Ok (v01_view ex01 1 2) /\
+  b_shape (p_body (v01_view ex01 1 2)) = [1; 1; 3; 2] /\
+  b_conf (p_body (v01_view ex01 1 2)) = [f1; f1; f1].
 Proof.
-  exists ex01, ex_time01. split; [exact ex01_wf|]. split; [reflexivity|]. split; [reflexivity|].
-  split; [vm_compute; reflexivity|]. split; [reflexivity|]. split; [vm_compute; reflexivity|]. split; [reflexivity|].
-  destruct (v01_read_full ex01 None ex_time01 ex01_wf I eq_refl eq_refl) as [Hb Hs]. rewrite Hb, Hs.
-  split; intros H; apply (f_equal (fun r => match r with Ok p => b_shape (p_body p) | Err _ => [] end)) in H;
-    vm_compute in H; discriminate.
+  assert (W : window01 ex01 ex_time01 = Ok (1, 2)%Z) by (vm_compute; reflexivity).
+  assert (V : valid_window (frames01 ex01) 1 2) by (split; [right|]; vm_compute; [reflexivity|discriminate]).
+  pose proof (v01_read_bytes ex01 None ex_time01 1 2 ex01_wf I W V) as B.
+  pose proof (v01_read_stream ex01 None ex_time01 1 2 ex01_wf I W V) as S.
+  conjs; try assumption; vm_compute; reflexivity.
 Qed.
+(* refused: a start at the frame count by frame and by time (floor (120 / 1000 * 25) = 3), a frame and a time bound for the
+   same end *)
+Definition ex_beyond01 : rargs := {| a_sf := Some 3%Z; a_st := None; a_ef := Some 5%Z; a_et := None |}.
+Definition ex_beyond_time01 : rargs := {| a_sf := None; a_st := Some 120%Z; a_ef := None; a_et := None |}.
+Lemma ex01_rejected :
+  window01 ex01 ex_beyond01 = Ok (3, 3)%Z /\ window01 ex01 ex_beyond_time01 = Ok (3, 3)%Z /\ frames01 ex01 = 3%Z /\
+  fst (read_bytes c04_legacy None (spec01 ex01) ex_beyond01) = Err Value /\
+  fst (fst (read_stream4 c04_legacy None (spec01 ex01) ex_beyond_time01)) = Err Value /\
+  fst (read_bytes c04_legacy None (spec01 ex01) ex_conflict) = Err Value /\
+  fst (fst (read_stream4 c04_legacy None (spec01 ex01) ex_conflict_end)) = Err Value.
+Proof. conjs; vm_compute; reflexivity. Qed.
 
 (* ---------- versions ---------- *)
 Lemma version_examples :
